@@ -109,6 +109,7 @@ type checkRun struct {
 	assumptions map[string]bool
 	undecided []string
 	registry map[string]bool
+	knownHit map[string]string
 	allNames []string
 }
 
@@ -152,7 +153,7 @@ func cmdCheck(args []string) int {
 	if *tier == "thorough" {
 		quickSec, totalSec = 10, 120
 	}
-	cr := &checkRun{prop: p, tier: *tier, seed: seed, t0: time.Now(), byBackend: map[string]int{}, assumptions: map[string]bool{}}
+	cr := &checkRun{prop: p, tier: *tier, seed: seed, t0: time.Now(), byBackend: map[string]int{}, assumptions: map[string]bool{}, knownHit: map[string]string{}}
 	pats := p.Patterns
 	if len(pats) == 0 {
 		pats = []string{"./..."}
@@ -285,7 +286,25 @@ func loadRegistry(id string) map[string]bool {
 	return m
 }
 
+// knownFindingFor: an OPEN known finding of this property whose match pattern covers the obligation name.
+func (cr *checkRun) knownFindingFor(name string) *KnownFinding {
+	for _, kf := range loadKnownFindings() {
+		if kf.Status == "open" && kf.Property == cr.prop.ID && kf.Match != "" {
+			if ok, _ := regexp.MatchString(kf.Match, name); ok {
+				k := kf
+				return &k
+			}
+		}
+	}
+	return nil
+}
+
 func (cr *checkRun) handleFailure(full string, rep *FuncReport, o *Oblig) {
+	if kf := cr.knownFindingFor(o.Name); kf != nil {
+		cr.nObl--
+		cr.knownHit[kf.ID] = o.Name
+		return
+	}
 	if cr.registry == nil {
 		cr.registry = loadRegistry(cr.prop.ID)
 		if cr.registry == nil {
@@ -387,6 +406,11 @@ func (cr *checkRun) finish() int {
 		}
 		if kf.Status == "open" {
 			still := "(listed)"
+			if hit, ok := cr.knownHit[kf.ID]; ok {
+				still = "(obligation " + hit + " still fails)"
+			} else if kf.Match != "" && kf.Canary == "" {
+				still = "(its obligation did not fail in this run)"
+			}
 			if kf.Canary != "" && cr.prog != nil {
 				r, _ := exploreBounded(cr.prog, kf.Canary, 2, nil, 0, time.Time{})
 				if r.NViol > 0 {
